@@ -36,6 +36,32 @@ def parse_insn(dbg, prev_op):
     return {"op": op, "t": t, "lab": lab, "proc": proc, "call": op == "Jump" and prev_op == "PushRet"}
 
 
+def label_scope_programs():
+    """every kind of jump x where it stands (module level before / after the procedures, inside a SUB, inside a FUNCTION) x
+    where its label stands: the checker decides which combinations are programs; what it accepts must keep every branch
+    inside its own procedure"""
+    jumps = {"goto": "IF N% = 99 THEN GOTO {l}", "gosub": "IF N% = 99 THEN GOSUB {l}", "on-goto": "ON N% GOTO {l}", "on-gosub": "ON N% GOSUB {l}",
+             "on-error": "ON ERROR GOTO {l}", "resume": "IF N% = 99 THEN RESUME {l}", "return": "IF N% = 99 THEN RETURN {l}",
+             "if-goto": "IF N% = 99 THEN {l}" , "else-goto": "IF N% = 1 THEN PRINT 1 ELSE GOTO {l}"}
+    labels = {"main1": "LM1", "main2": "LM2", "sub": "LS", "fun": "LF", "sub2": "LS2"}
+    out = []
+    for jk, jt in jumps.items():
+        for frm in ("main1", "main2", "sub", "fun"):
+            for lk, lab in labels.items():
+                j = jt.replace("{l}", lab)
+                lines = ["N% = 0"]
+                lines += [j] if frm == "main1" else []
+                lines += ["P", "R% = F%(1)", 'PRINT "main"', "END", "LM1:", 'PRINT "lm1"', "RETURN"]
+                lines += ["SUB P"] + (["  " + j] if frm == "sub" else []) + ['  PRINT "p"', "  EXIT SUB", "LS:", '  PRINT "ls"', "END SUB"]
+                lines += ["SUB P2", "LS2:", '  PRINT "p2"', "END SUB"]
+                lines += ["FUNCTION F% (X%)"] + (["  " + j] if frm == "fun" else []) + ["  F% = X%", "  EXIT FUNCTION", "LF:", "  F% = 2", "END FUNCTION"]
+                # module-level code that stands after the procedures
+                lines += [j] if frm == "main2" else []
+                lines += ["LM2:", 'PRINT "lm2"', "END"]
+                out.append({"src": "labels:%s/%s/%s" % (jk, frm, lk), "text": "\r\n".join(lines) + "\r\n"})
+    return out
+
+
 def sources(tier, sd):
     import c01, c03, c04, c05, c06
     out = []
@@ -57,6 +83,7 @@ def sources(tier, sd):
                 pass
     for c in corpus.programs():
         out.append({"src": "corpus:" + c["src"], "text": c["text"]})
+    out += label_scope_programs()
     # every statement form at least once
     import tour
     for i, t in enumerate(tour.TOUR):
